@@ -35,11 +35,24 @@ Theorem C13_find_last_index_greatest : forall p l,
 Proof. exact find_last_index_greatest. Qed.
 Print Assumptions C13_find_last_index_greatest.
 
+Theorem C13_last_index_of_greatest : forall l v,
+  (last_index_of l v = -1 /\ ~ In v l) \/
+  (exists i, last_index_of l v = Z.of_nat i /\ nth_error l i = Some v /\
+             forall j, (i < j)%nat -> nth_error l j <> Some v).
+Proof. exact last_index_of_greatest. Qed.
+Print Assumptions C13_last_index_of_greatest.
+
 (* FindAll: exactly the matching (index, value) pairs *)
 Theorem C13_find_all_exact : forall p l i v,
   In (i, v) (find_all p l) <-> exists n, i = Z.of_nat n /\ nth_error l n = Some v /\ p v = true.
 Proof. exact find_all_exact. Qed.
 Print Assumptions C13_find_all_exact.
+
+(* ... and the result is a map: one entry per position, listed by increasing position *)
+Theorem C13_find_all_is_map : forall p l,
+  NoDup (map fst (find_all p l)) /\ StronglySorted (fun a b => fst a < fst b) (find_all p l).
+Proof. intros p l. split; [apply find_all_keys_nodup | apply find_all_sorted]. Qed.
+Print Assumptions C13_find_all_is_map.
 
 (* Contains / Some / Every are the quantifiers *)
 Theorem C13_contains_iff : forall l x, contains l x = true <-> In x l.
@@ -100,9 +113,38 @@ Theorem C13_find_min_by_first : forall f l l1 l2,
   l = l1 ++ find_min_by f l :: l2 -> ~ In (find_min_by f l) l1 ->
   forall x, In x l1 -> f (find_min_by f l) < f x.
 Proof. exact find_min_by_first. Qed.
+Theorem C13_find_max_by_first : forall f l l1 l2,
+  l = l1 ++ find_max_by f l :: l2 -> ~ In (find_max_by f l) l1 ->
+  forall x, In x l1 -> f x < f (find_max_by f l).
+Proof. exact find_max_by_first. Qed.
+(* the same without hypotheses on the split: a non-empty slice decomposes around
+   the answer with every EARLIER element strictly worse under the key and every
+   later one no better — "extremal, and the first such one" in one statement;
+   [C13_first_extremal_unique] shows the decomposition names one element only,
+   so the statement determines the answer. *)
+Theorem C13_find_min_by_first_extremal : forall f l, l <> [] ->
+  exists l1 l2, l = l1 ++ find_min_by f l :: l2 /\
+    (forall x, In x l1 -> f (find_min_by f l) < f x) /\
+    (forall x, In x l2 -> f (find_min_by f l) <= f x).
+Proof. exact find_min_by_split. Qed.
+Theorem C13_find_max_by_first_extremal : forall f l, l <> [] ->
+  exists l1 l2, l = l1 ++ find_max_by f l :: l2 /\
+    (forall x, In x l1 -> f x < f (find_max_by f l)) /\
+    (forall x, In x l2 -> f x <= f (find_max_by f l)).
+Proof. exact find_max_by_split. Qed.
+Theorem C13_first_extremal_unique : forall (f : Z -> Z) l1 r l2 k1 r' k2,
+  l1 ++ r :: l2 = k1 ++ r' :: k2 ->
+  (forall x, In x l1 -> f r < f x) -> (forall x, In x l2 -> f r <= f x) ->
+  (forall x, In x k1 -> f r' < f x) -> (forall x, In x k2 -> f r' <= f x) ->
+  l1 = k1 /\ r = r' /\ l2 = k2.
+Proof. exact first_min_unique. Qed.
 Print Assumptions C13_find_min_by_extremal.
 Print Assumptions C13_find_max_by_extremal.
 Print Assumptions C13_find_min_by_first.
+Print Assumptions C13_find_max_by_first.
+Print Assumptions C13_find_min_by_first_extremal.
+Print Assumptions C13_find_max_by_first_extremal.
+Print Assumptions C13_first_extremal_unique.
 
 (* …ByKey: extremal among the maps that have the key; zero for no maps; an
    error when the first map lacks the key *)
@@ -132,8 +174,34 @@ Theorem C13_find_max_by_key : forall ms key,
       end
   end.
 Proof. exact find_max_by_key_spec. Qed.
+(* a map that lacks the key takes no part in the answer (it is NOT read as the
+   zero value): dropping every such map changes nothing; only the FIRST map is
+   required to have the key (error kind 1 otherwise) *)
+Theorem C13_by_key_ignores_maps_without_key : forall ms key,
+  (find_min_by_key ms key =
+   match ms with
+   | [] => Ok 0
+   | m0 :: _ => if has_key key m0 then find_min_by_key (filter (has_key key) ms) key else Err 1
+   end) /\
+  (find_max_by_key ms key =
+   match ms with
+   | [] => Ok 0
+   | m0 :: _ => if has_key key m0 then find_max_by_key (filter (has_key key) ms) key else Err 1
+   end).
+Proof.
+  intros ms key. split; apply find_ext_by_key_ignores_missing.
+Qed.
 Print Assumptions C13_find_min_by_key.
 Print Assumptions C13_find_max_by_key.
+Print Assumptions C13_by_key_ignores_maps_without_key.
+(* non-vacuity: maps without the key in the middle and at the end; a reading of
+   "missing = 0" would answer 0 in both *)
+Example C13_by_key_examples :
+  find_min_by_key [[(0, 2)]; [(1, -5)]; [(0, 3); (1, 1)]; []] 0 = Ok 2 /\
+  find_max_by_key [[(0, -2)]; [(1, 5)]; [(0, -3)]] 0 = Ok (-2) /\
+  find_min_by_key [[(1, 4)]; [(0, 1)]] 0 = Err 1 /\
+  find_min_by_key [] 0 = Ok 0.
+Proof. repeat split; reflexivity. Qed.
 
 (* Nth: s[i], s[len+i], or an error — never a panic *)
 Theorem C13_nth_spec : forall l n,
@@ -144,8 +212,22 @@ Theorem C13_nth_spec : forall l n,
 Proof. exact nth_go_spec. Qed.
 Theorem C13_nth_never_panics : forall l n, nth_go l n <> Panic.
 Proof. exact nth_go_never_panics. Qed.
+(* the same as exact characterisations, without a default element: which (l, n)
+   give which value, and which give the error *)
+Theorem C13_nth_ok_iff : forall l n v,
+  let len := Z.of_nat (length l) in
+  nth_go l n = Ok v <->
+  (0 <= n < len /\ nth_error l (Z.to_nat n) = Some v) \/
+  (- len <= n < 0 /\ nth_error l (Z.to_nat (len + n)) = Some v).
+Proof. exact nth_go_ok_iff. Qed.
+Theorem C13_nth_err_iff : forall l n,
+  let len := Z.of_nat (length l) in
+  (exists k, nth_go l n = Err k) <-> (n >= len \/ n < - len).
+Proof. exact nth_go_err_iff. Qed.
 Print Assumptions C13_nth_spec.
 Print Assumptions C13_nth_never_panics.
+Print Assumptions C13_nth_ok_iff.
+Print Assumptions C13_nth_err_iff.
 
 (* Sum/SumBy/Mean: the arithmetic sum (mean) — in a w-bit element type, the
    sum modulo 2^w in the type's range *)
@@ -158,10 +240,32 @@ Theorem C13_sum_wrap : forall w l, 0 < w ->
 Proof. exact sum_w_spec. Qed.
 Theorem C13_mean : forall l, l <> [] -> mean l = Ok (Z.quot (sum l) (Z.of_nat (length l))).
 Proof. exact mean_spec. Qed.
+(* the integer mean is the exact mean sum/len rounded toward zero: r*len is the
+   multiple of len nearest to the sum on the side of zero *)
+Theorem C13_mean_rounds_toward_zero : forall l, l <> [] ->
+  exists r, mean l = Ok r /\
+    let n := Z.of_nat (length l) in
+    Z.abs (r * n) <= Z.abs (sum l) /\ Z.abs (sum l - r * n) < n /\
+    (0 <= sum l -> 0 <= r) /\ (sum l <= 0 -> r <= 0).
+Proof. exact mean_trunc. Qed.
+(* Mean in a w-bit element type, slice shorter than 2^(w-1): the rounded mean of
+   the WRAPPED sum (so Mean[int8]{100,100} = -28), in range, never a panic *)
+Theorem C13_mean_wrap : forall w l, 0 < w -> l <> [] -> Z.of_nat (length l) < 2 ^ (w - 1) ->
+  mean_w w l = Ok (Z.quot (sum_w w l) (Z.of_nat (length l))) /\
+  - 2 ^ (w - 1) <= Z.quot (sum_w w l) (Z.of_nat (length l)) < 2 ^ (w - 1).
+Proof. exact mean_w_spec. Qed.
+(* ... and for every length: the division panics exactly when the length is a
+   multiple of 2^w (the empty slice; 256 elements of an int8 slice) *)
+Theorem C13_mean_wrap_panics_iff : forall w l, 0 < w ->
+  (mean_w w l = Panic <-> (Z.of_nat (length l)) mod 2 ^ w = 0).
+Proof. exact mean_w_panics_iff. Qed.
 Print Assumptions C13_sum.
 Print Assumptions C13_sum_by.
 Print Assumptions C13_sum_wrap.
 Print Assumptions C13_mean.
+Print Assumptions C13_mean_rounds_toward_zero.
+Print Assumptions C13_mean_wrap.
+Print Assumptions C13_mean_wrap_panics_iff.
 
 (* Abs, Clamp, InRange *)
 Theorem C13_abs : forall x, abs_go x = Z.abs x.
@@ -217,10 +321,147 @@ Theorem C13_range_right : forall args,
 Proof. exact range_right_spec. Qed.
 Theorem C13_range_never_panics : forall args, range_go args <> Panic.
 Proof. exact range_never_panics. Qed.
+(* [C13_range_spec] determines the result: the number of terms is the rounded-up
+   quotient of the distance by |step| — the closed form of "maximal ... stops
+   before reaching it" *)
+Theorem C13_range_closed_form : forall args s st e,
+  range_args args = Some (s, st, e) -> ~ range_invalid args ->
+  range_go args =
+  Ok (if e >? 0
+      then (if s <? e then prog (Z.to_nat (ceil_div (e - s) (Z.abs st))) s (Z.abs st) else [])
+      else (if e <? s then prog (Z.to_nat (ceil_div (s - e) (Z.abs st))) s (- Z.abs st) else [])).
+Proof. exact range_closed_form. Qed.
+(* the argument-count variants spelled out: none / end / start, end — they
+   cannot fail; three arguments fail exactly as [C13_range_errors] says; more
+   than three always fail *)
+Theorem C13_range_no_args : range_go [] = Ok [].
+Proof. exact range_no_args. Qed.
+Theorem C13_range_one_arg : forall e,
+  range_go [e] = Ok (if e >? 0 then prog (Z.to_nat e) 0 1 else prog (Z.to_nat (- e)) 0 (-1)).
+Proof. exact range_one_arg. Qed.
+Theorem C13_range_two_args : forall s e,
+  range_go [s; e] = Ok (if e >? 0 then prog (Z.to_nat (e - s)) s 1 else prog (Z.to_nat (s - e)) s (-1)).
+Proof. exact range_two_args. Qed.
+Theorem C13_range_too_many_args : forall a b c d args, exists k, range_go (a :: b :: c :: d :: args) = Err k.
+Proof. intros. now exists 1. Qed.
+(* the reverse of a progression is the progression from its last term by the opposite step *)
+Theorem C13_rev_progression : forall n s d, rev (prog n s d) = prog n (s + (Z.of_nat n - 1) * d) (- d).
+Proof. exact rev_prog. Qed.
 Print Assumptions C13_range_errors.
 Print Assumptions C13_range_spec.
 Print Assumptions C13_range_right.
 Print Assumptions C13_range_never_panics.
+Print Assumptions C13_range_closed_form.
+Print Assumptions C13_range_no_args.
+Print Assumptions C13_range_one_arg.
+Print Assumptions C13_range_two_args.
+Print Assumptions C13_range_too_many_args.
+Print Assumptions C13_rev_progression.
+
+(* ------------------------------------------------------------------ *)
+(* Go's int is a 64-bit type.  The theorems above read it as an unbounded
+   integer; the functions that do ARITHMETIC on an int argument (Nth: Abs and a
+   subtraction; Range: the loop counter and Abs(step); Sum/SumBy/Mean: the
+   accumulator; Abs) are modelled a second time with every operation wrapped at
+   w bits (w = 64 on the wire), and related to the unbounded reading here:
+   equal outright (Nth), equal whenever the true result fits (Sum), equal
+   for every argument of the type after the repair of the loops (Range) — and
+   what happens otherwise is stated separately.  The functions that only COMPARE
+   (IndexOf ... Every, FindMin ... Max, Clamp, InRange, Compare/Less/Equal) are
+   the same function on Z and on int64. *)
+
+(* Nth: for every index of the type — math.MinInt included, where Abs returns
+   its argument and len - Abs(nth) wraps — the 64-bit code answers exactly what
+   the unbounded reading answers; in particular it never panics *)
+Theorem C13_nth_int_eq : forall w l n, 0 < w -> fits w n -> Z.of_nat (length l) < 2 ^ (w - 1) ->
+  nth_w w l n = nth_go l n.
+Proof. exact nth_w_eq. Qed.
+Theorem C13_nth_int_never_panics : forall w l n, 0 < w -> fits w n -> Z.of_nat (length l) < 2 ^ (w - 1) ->
+  nth_w w l n <> Panic.
+Proof. exact nth_w_never_panics. Qed.
+Print Assumptions C13_nth_int_eq.
+Print Assumptions C13_nth_int_never_panics.
+
+(* Sum: whenever the mathematical sum fits the type the wrapped loop returns it
+   (overflows of partial sums cancel); otherwise [C13_sum_wrap] says what is
+   returned.  SumBy is Sum of the images. *)
+Theorem C13_sum_int_exact : forall w l, 0 < w -> fits w (sum l) -> sum_w w l = sum l.
+Proof. exact sum_w_exact. Qed.
+Theorem C13_sum_by_int : forall w f l, sum_by_w w f l = sum_w w (map f l).
+Proof. exact sum_by_w_map. Qed.
+Print Assumptions C13_sum_int_exact.
+Print Assumptions C13_sum_by_int.
+
+(* Range in a bounded element type, after the repair 07bbafa (both loops stop
+   when the next term would not fit): for EVERY start / step / end of a signed
+   w-bit type — MaxInt, MinInt and the most negative step included, where
+   Abs(step) returns step itself — the loop returns exactly the progression of
+   the unbounded reading ([C13_range_spec], [C13_range_closed_form]), provided it
+   has at most [cap] terms (the model's iteration budget; 20000 on the wire).
+   There is no no-overflow hypothesis any more.  The same for unsigned types.
+   The rejected argument shapes are the same. *)
+Theorem C13_range_int_eq : forall w cap args l,
+  1 < w -> Forall (fits w) args ->
+  range_go args = Ok l -> (length l <= cap)%nat ->
+  range_w w cap args = Ok l.
+Proof. exact range_w_eq. Qed.
+Theorem C13_range_uint_eq : forall w cap args l,
+  0 < w -> Forall (ufits w) args ->
+  range_go args = Ok l -> (length l <= cap)%nat ->
+  range_u w cap args = Ok l.
+Proof. exact range_u_eq. Qed.
+Theorem C13_range_int_errors : forall w cap args k, range_go args = Err k -> range_w w cap args = Err k.
+Proof. exact range_w_err. Qed.
+Theorem C13_range_right_int : forall w cap args,
+  range_right_w w cap args =
+  match range_w w cap args with Ok l => Ok (rev l) | Err k => Err k | Panic => Panic end.
+Proof. exact range_right_w_rev. Qed.
+Theorem C13_range_right_uint : forall w cap args,
+  range_right_u w cap args =
+  match range_u w cap args with Ok l => Ok (rev l) | Err k => Err k | Panic => Panic end.
+Proof. exact range_right_u_rev. Qed.
+(* the loops use [wrapf], which is [wrap] with a shortcut *)
+Theorem C13_wrapf_eq : forall w z, 0 < w -> wrapf w z = wrap w z.
+Proof. exact wrapf_eq. Qed.
+Print Assumptions C13_range_int_eq.
+Print Assumptions C13_range_uint_eq.
+Print Assumptions C13_range_int_errors.
+Print Assumptions C13_range_right_int.
+Print Assumptions C13_range_right_uint.
+Print Assumptions C13_wrapf_eq.
+
+(* THE CODE AS FOUND (before 07bbafa), only: without the break tests a counter
+   that passes the top of the type wraps and the loop runs on.  Witness in an
+   8-bit type: the ascending loop from 120 by 5 toward 127 yields 155 values
+   (120, 125, -126, -121, ...) instead of [120; 125] — measured on the unrepaired
+   code: Range[int8](120, 5, 127) had 155 elements; with 64-bit ints
+   Range(MaxInt-5, 2, MaxInt) ran until memory was exhausted. *)
+Theorem C13_range_overflow_unrepaired_refuted :
+  range_go [120; 5; 127] = Ok [120; 125] /\ Forall (fits 8) [120; 5; 127] /\
+  (exists l, range_up_asfound 8 1000 120 5 127 = Some l /\ length l = 155%nat) /\
+  range_w 8 1000 [120; 5; 127] = Ok [120; 125].
+Proof.
+  split; [reflexivity|]. split; [repeat constructor; unfold fits; cbn; lia|]. split.
+  - eexists. split; [vm_compute; reflexivity | reflexivity].
+  - vm_compute. reflexivity.
+Qed.
+Print Assumptions C13_range_overflow_unrepaired_refuted.
+(* the repaired code at the limits: the cases the lead measured, the most
+   negative step, both ends of int64; Nth at math.MinInt; Sum with cancelling
+   overflow *)
+Example C13_int64_examples :
+  range_w 64 100 [2 ^ 63 - 6; 2; 2 ^ 63 - 1] = Ok [2 ^ 63 - 6; 2 ^ 63 - 4; 2 ^ 63 - 2] /\
+  range_w 64 100 [2 ^ 63 - 4; 2; 2 ^ 63 - 2] = Ok [2 ^ 63 - 4] /\
+  range_w 64 100 [- 2 ^ 63 + 3; -1; - 2 ^ 63 + 1] = Ok [- 2 ^ 63 + 3; - 2 ^ 63 + 2] /\
+  range_w 64 100 [- 2 ^ 63 + 3; 5; - 2 ^ 63] = Ok [- 2 ^ 63 + 3] /\
+  range_w 64 100 [5; - 2 ^ 63; - 2 ^ 63] = Ok [5; 5 - 2 ^ 63] /\
+  range_w 64 100 [-5; - 2 ^ 63; - 2 ^ 63] = Ok [-5] /\
+  range_w 8 1000 [-120; 5; -128] = Ok [-120; -125] /\
+  range_u 8 1000 [5; 2; 0] = Ok [5; 3; 1] /\ range_u 8 1000 [250; 4; 255] = Ok [250; 254] /\
+  nth_w 64 [7] (- 2 ^ 63) = Err 1 /\ nth_w 64 [] (- 2 ^ 63) = Err 1 /\ nth_w 64 [7] (2 ^ 63 - 1) = Err 1 /\
+  sum_w 64 [2 ^ 63 - 1; 1; -1] = 2 ^ 63 - 1 /\ sum_w 64 [2 ^ 63 - 1; 1] = - 2 ^ 63 /\
+  abs_w 64 (- 2 ^ 63) = - 2 ^ 63.
+Proof. repeat split; vm_compute; reflexivity. Qed.
 
 (* non-vacuity: the hypotheses of the conditional statements are met by
    concrete inputs, and the model computes the expected answers there *)
@@ -230,9 +471,25 @@ Example C13_examples :
   ~ range_invalid [1; 2; 8] /\ range_invalid [3; 1; 2] /\
   nth_go [10; 20; 30] (-1) = Ok 30 /\ nth_go [] 0 = Err 1 /\
   clamp 5 1 3 = 3 /\ find_min_by (fun x => Z.rem x 2) [3; 4; 6; 1] = 4 /\
-  sum_w 8 [100; 100] = -56.
+  sum_w 8 [100; 100] = -56 /\
+  (* further shapes of Range: step larger than the distance, step not dividing
+     it, start beyond a non-positive end (descending), start = end, a negative
+     step with a positive end and start = end, the three error kinds *)
+  range_go [2; 5; 4] = Ok [2] /\ range_go [0; 3; 7] = Ok [0; 3; 6] /\ range_go [3; 2; -2] = Ok [3; 1; -1] /\
+  range_go [3; -2; -2] = Ok [3; 1; -1] /\ range_go [4; 1; 4] = Ok [] /\ range_go [4; -1; 4] = Ok [] /\
+  range_go [-5; -2] = Ok [] /\ range_go [2; -3] = Ok [2; 1; 0; -1; -2] /\ range_go [5; 2] = Ok [] /\
+  range_go [5; 1; 3] = Err 2 /\ range_go [1; 0; 3] = Err 3 /\ range_go [1; -1; 3] = Err 4 /\
+  range_go [1; 2; 3; 4] = Err 1 /\ range_right [1; 2; 8] = Ok [7; 5; 3; 1] /\
+  (* Nth at the four boundaries and just outside *)
+  nth_go [10; 20; 30] 0 = Ok 10 /\ nth_go [10; 20; 30] 2 = Ok 30 /\ nth_go [10; 20; 30] 3 = Err 1 /\
+  nth_go [10; 20; 30] (-3) = Ok 10 /\ nth_go [10; 20; 30] (-4) = Err 1 /\
+  (* Mean: rounding toward zero on both sides, wrap-around at int8, the int8 length quirks *)
+  mean [1; 2] = Ok 1 /\ mean [-1; -2] = Ok (-1) /\ mean [] = Panic /\
+  mean_w 8 [100; 100] = Ok (-28) /\ mean_w 8 (repeat 1 128) = Ok 1 /\ mean_w 8 (repeat 1 256) = Panic /\
+  (* first among equals, both directions *)
+  find_max_by (fun x => Z.rem x 2) [4; 3; 6; 1] = 3 /\ find_min_by (fun _ => 0) [5; 4; 3] = 5.
 Proof.
-  repeat split; try reflexivity.
+  repeat split; try (vm_compute; reflexivity).
   - intros [H | (s & st & e & H & Hc)]; [cbn in H; lia|]. injection H as <- <- <-. lia.
   - right. exists 3, 1, 2. split; [reflexivity | lia].
 Qed.
